@@ -2,12 +2,12 @@
    Statements only.  "Every sequence of key-set, restart, reset and context operations, every exit latency, every
    placement of calls relative to pending timers" = every list of events of the gate-level model (API sections of Keyed
    and KeyedRefCount, instances leaving their first select in either order, wake-ups, routine returns with any outcome,
-   bookkeeping sections, clock advances, retry and delayed-removal callbacks run at any later point), any keys, with
-   and without release delay / back-off.  No bound on keys, instances, timers.
+   bookkeeping sections, clock advances, retry and delayed-removal callbacks run at any later point, and the owner of
+   any root context cancelling it at any moment - [ECancelRoot]), any keys, with and without release delay / back-off.  No bound on keys, instances, timers.
    A LINEAGE ([ilin], [rlin]) is the incarnation of a key: the chain of records it has between being added and being
    removed (ResetRoutine keeps the lineage, see c07_reset_keeps_lineage); a key that is removed and added again starts
    a new lineage, and the property text speaks about "while a key remains in the set". *)
-From Util Require Import Common.Base Common.ListLemmas Keyed.Model Keyed.Proofs Keyed.ProofsC07.
+From Util Require Import Common.Base Common.ListLemmas Keyed.Model Keyed.Proofs Keyed.ProofsC07 Keyed.ProofsCancel.
 
 (* the chain: every instance waits on the newest earlier instance of its lineage (or on nothing if all earlier ones
    have returned), its exit channel is closed exactly when it has left the routine function, and it is in / past the
@@ -76,6 +76,34 @@ Theorem c07_clear_context_cancels_all : forall delay script es restart i x,
   kctx s <> 0 -> nth_error (insts (set_context s 0 restart)) i = Some x -> icanc x = true.
 Proof. intros dl sc es restart i x s Hk Hx. exact (clear_context_cancels_all s restart (run_W dl sc es) Hk i x Hx). Qed.
 Print Assumptions c07_clear_context_cancels_all.
+
+(* a root context cancelled by its owner (not cleared through the container).  (1) at every point of every history an
+   instance whose root context is cancelled has a cancelled context - it was born so, or was cancelled with the root;
+   (2) the cancellation itself cancels every instance started under that root and tells the container nothing (context,
+   key map, records, timers untouched, nothing started); (3) the container drops a cancelled root at its next SyncKeys /
+   ResetRoutine / RestartRoutine call - the call starts nothing, RestartRoutine reports "not restarted" - and from then on
+   c07_no_context_nothing_started applies.  SetKey, SetContext and the retry callback do not look at the root's state: what
+   they start under a cancelled root is cancelled from birth (1). *)
+Theorem c07_cancelled_root_cancels_its_instances :
+  (forall delay script es i x,
+     let s := run repaired (init delay script) es in
+     nth_error (insts s) i = Some x -> root_canc s (iroot x) = true -> icanc x = true) /\
+  (forall s c, c <> 0 ->
+     root_canc (cancel_root s c) c = true /\
+     (forall i x, nth_error (insts (cancel_root s c)) i = Some x -> iroot x = c -> icanc x = true) /\
+     kctx (cancel_root s c) = kctx s /\ kmap (cancel_root s c) = kmap s /\ recs (cancel_root s c) = recs s /\
+     timers (cancel_root s c) = timers s /\ length (insts (cancel_root s c)) = length (insts s)).
+Proof. split; [intros dl sc es i x s; exact (run_InvC repaired dl sc es i x) | exact cancel_root_effect]. Qed.
+Print Assumptions c07_cancelled_root_cancels_its_instances.
+
+Theorem c07_cancelled_root_dropped_at_next_call : forall s,
+  root_canc s (kctx s) = true ->
+  (forall ks restart, let s' := fst (sync_keys repaired s ks restart) in kctx s' = 0 /\ length (insts s') = length (insts s)) /\
+  (forall k cond, let s' := fst (reset_routine repaired s k cond) in kctx s' = 0 /\ length (insts s') = length (insts s)) /\
+  (forall k cond, let s' := fst (restart_routine s k cond) in kctx s' = 0 /\ length (insts s') = length (insts s) /\
+                                                            snd (snd (restart_routine s k cond)) = false).
+Proof. exact cancelled_root_dropped. Qed.
+Print Assumptions c07_cancelled_root_dropped_at_next_call.
 
 (* ... and while the container has no context nothing is started, whatever is called (only SetContext with a context
    starts routines again) *)
@@ -149,6 +177,18 @@ Example c07_example_two_keys :
   cnt (in_user_lin 0) (insts s) = 1 /\ cnt (in_user_lin 2) (insts s) = 1.
 Proof. vm_compute. repeat split; reflexivity. Qed.
 
+(* the owner cancels the root context: the running instance is cancelled; SetKey(start) replaces it by an instance that
+   is cancelled from birth and waits for it; a key added now gets an instance that ends at once with context.Canceled
+   (it never enters the routine function), its retry callback starts the next one; RestartRoutine drops the context *)
+Example c07_example_cancelled_root :
+  let s := run repaired (init 0 (Some [100; 200]%N))
+             [ESetCtx 1 false; ESetKey 0 true; EProceed 0 true; ECancelRoot 1; ESetKey 0 true; ESetKey 2 false; EProceed 2 true;
+              EBook 2; EAdvance 100; ETimerCb 0] in
+  icanc (geti s 0) = true /\ in_user (geti s 0) = true /\ icanc (geti s 1) = true /\ iwait (geti s 1) = Some 0 /\
+  ipcv (geti s 2) = IDone /\ cblog s = [(2, 2001%N, OCanc)] /\ length (insts s) = 4 /\ icanc (geti s 3) = true /\ kctx s = 1 /\
+  let s' := fst (restart_routine s 0 0) in kctx s' = 0 /\ length (insts s') = 4.
+Proof. vm_compute. repeat split; reflexivity. Qed.
+
 (* the monitor clauses 7/6 and 7/7 (Spec.v: a key that the caller's requests have removed has no instance with a live
    context inside its routine function and gets no new instance), on the observation format.  A key set {0,1} with both
    routines running, SyncKeys([0;0]) (a list with a duplicate), then SetContext(other root, restart):
@@ -172,4 +212,12 @@ Example c07_example_monitor_flags_kept_key :
   let is7 (c i : nat) (x : issue) := match x with PropFalse 7%nat c' i' => Nat.eqb c c' && Nat.eqb i i' | _ => false end in
   existsb (is7 6%nat 4%nat) (run_check_keyed [0;0;0]%N evs obss) = true /\
   existsb (is7 7%nat 5%nat) (run_check_keyed [0;0;0]%N evs obss) = true.
+Proof. vm_compute. split; reflexivity. Qed.
+(* a routine started under a root context that is cancelled afterwards records its (error) exit after the container has
+   dropped that root (RestartAllRoutines, then ClearContext): the retry timer it arms finds no context and starts
+   nothing.  Retry obligations (7/5) exist only while the container holds a live context: the monitors are silent. *)
+Example c07_example_monitor_silent_late_exit_after_cancelled_root :
+  let evs := [[1;1;0]; [2;0;1]; [14;0;1]; [21;1]; [9;1]; [1;0;1]; [15;0;2]; [16;0]; [17;100]; [18;0]; [19]]%N in
+  length (run_obs step_opt (hinit [0;0;1;100]%N) evs) = 11%nat /\
+  run_check_keyed [0;0;1;100]%N evs (run_obs step_opt (hinit [0;0;1;100]%N) evs) = [].
 Proof. vm_compute. split; reflexivity. Qed.
